@@ -85,7 +85,7 @@ pub fn joback_for(n: usize, rng: &mut Rng) -> Arc<IdealGasModel> {
 
 pub fn run(cfg: Config) -> i32 {
     let mut m = Monitor::new(cfg.clone());
-    let (reps, nstates) = cfg.tier.pick((3, 16), (60, 100));
+    let (reps, nstates) = cfg.tier.pick((8, 24), (60, 100));
     let stream = build_stream(
         cfg.seed,
         "c01",
